@@ -378,3 +378,4 @@ fn detect_trials_get_rewound_reader() {
 	// after detection the handle still rewinds for the translator
 	match h.borrow_mut() { Ref::Reader(rd) => assert!(rd.prefix.position() == 0), Ref::Slice(b) => assert!(b.len() == off) }
 }
+
